@@ -186,7 +186,10 @@ pub fn builtins_record(args: &[String]) {
         for (a, op, b) in [("9223372036854775807", "%", "0.9999999999999999999999999999"), ("79228162514264337593543950335", "%", "1.0000000000000000000000000001"),
                            ("9999999999999999999999999999", "%", "0.7"), ("8999999999999999999999999999", "%", "1.5"), ("100000000000000000000", "%", "0.000000003"),
                            ("0.1", "+", "0.2"), ("1.10", "*", "1.10"), ("9", ">", "0.9999999999999999999999999999"), ("80", ">", "0.8765432109876543210987654321"),
-                           ("-9", "<", "-0.9999999999999999999999999999"), ("1", "==", "1.0000000000000000000000000000"), ("7922816251426433759354395033.5", "-", "0.5")] {
+                           ("-9", "<", "-0.9999999999999999999999999999"), ("1", "==", "1.0000000000000000000000000000"), ("7922816251426433759354395033.5", "-", "0.5"),
+                           // exact results that only fit at a smaller scale than the operands'
+                           ("4000000000000000000000000000.0", "+", "4000000000000000000000000000.0"), ("-4000000000000000000000000000.0", "-", "4000000000000000000000000000.0"),
+                           ("7922816251426433759354395033.5", "+", "0.5"), ("0.00", "==", "0.0"), ("0.000", "!=", "0")] {
             let vals = vec![d(a), d(b)];
             let (actual, _) = apply_case("bin", op, &vals, false);
             out.line(&json!({"kind": "bin", "op": op, "args": vals.iter().map(value_to_json).collect::<Vec<_>>(), "actual": actual}));
